@@ -16,7 +16,9 @@ GEN_MODULES = ['excelutil', 'aggregates', 'stats']
 
 ASSUMPTIONS = [
     "stored results are integers, text and logicals computed by the implementation itself on a no-data "
-    "copy of the workbook (integer arithmetic: 'consistent' is exact)",
+    "copy of the workbook (integer arithmetic: 'consistent' is exact); the magnitude stream uses float inputs "
+    "m*10^e (|e| <= 18, decimals that survive openpyxl's 16-digit writing) and formulas one IEEE operation away from "
+    "the exact value, stored results injected with repr (exact)",
     "the .xlsx files are written with openpyxl and the cached values injected into the sheet XML",
     "theorems: formula meaning is an arbitrary total function of the precedents' values (nothing raises: the "
     "exceptions / not-implemented buckets are oracle-only); close_enough is computed on exact rationals "
